@@ -2939,6 +2939,42 @@ let bin_count _ b qs =
   fold_right Z.add Z0
     (map (fun p -> if in_bin b (fst p) then Zpos XH else Z0) qs)
 
+(** val lead_copied : z -> z -> bool **)
+
+let lead_copied nmin kc =
+  (||) ((&&) (Z.leb Z0 kc) (Z.ltb kc (slice_left nmin)))
+    ((&&) (Z.leb (Z.opp (Z.div nmin (Zpos (XO XH)))) kc) (Z.ltb kc Z0))
+
+(** val last_copied : z -> z -> bool **)
+
+let last_copied nmin kc =
+  (&&) (Z.leb Z0 kc) (Z.leb kc (Z.div nmin (Zpos (XO XH))))
+
+(** val vec_copied : z -> z list -> bool **)
+
+let rec vec_copied nmin = function
+| [] -> true
+| kc :: r ->
+  (match r with
+   | [] -> last_copied nmin kc
+   | _ :: _ -> (&&) (lead_copied nmin kc) (vec_copied nmin r))
+
+(** val odd_ok : z -> z list -> bool **)
+
+let odd_ok n k =
+  if Z.even n
+  then forallb (fun kc ->
+         Z.leb (Z.abs kc) (Z.sub (Z.div n (Zpos (XO XH))) (Zpos XH))) k
+  else true
+
+(** val resample_keeps : z -> z -> bool -> z list -> bool **)
+
+let resample_keeps n m oddball k =
+  (&&)
+    ((&&) (vec_copied (Z.min n m) k)
+      (if (&&) ((&&) (Z.ltb n m) (Z.even n)) oddball then odd_ok n k else true))
+    (if (&&) ((&&) (Z.ltb m n) (Z.even m)) oddball then odd_ok m k else true)
+
 (** val aff : z -> z -> z -> z **)
 
 let aff a b u =
@@ -3561,6 +3597,14 @@ let run_c04 sub0 a =
         (match p0 with
          | XI p1 ->
            (match p1 with
+            | XI _ -> []
+            | XO p2 ->
+              (match p2 with
+               | XH ->
+                 (bq
+                   (resample_keeps (z0 O) (z0 (S O)) (b (S (S O)))
+                     (zs (skipn (S (S (S O))) a)))) :: []
+               | _ -> [])
             | XH ->
               (bq
                 (match z0 (S (S O)) with
@@ -3569,8 +3613,7 @@ let run_c04 sub0 a =
                    (match p2 with
                     | XH -> in_right (z0 O) (z0 (S O)) (z0 (S (S (S O))))
                     | _ -> in_last (z0 O) (z0 (S O)) (z0 (S (S (S O)))))
-                 | Zneg _ -> in_last (z0 O) (z0 (S O)) (z0 (S (S (S O)))))) :: []
-            | _ -> [])
+                 | Zneg _ -> in_last (z0 O) (z0 (S O)) (z0 (S (S (S O)))))) :: [])
          | XO p1 ->
            (match p1 with
             | XI _ -> []
